@@ -223,7 +223,7 @@ def plan_c08(K, ctx):
 # ------------------------------------------------------------------------------------------------ C04 / C05 / C12
 def garbage_plan(K, ctx, prop):
     quick = ctx.tier == "quick"
-    cfg = ("SPECIFICATION Spec\n" + consts(MAXTOK=3 if quick else 4, MAXEDITS=1 if quick else 2, TIER=f'"{ctx.tier}"', SEED=ctx.seed) +
+    cfg = ("SPECIFICATION Spec\n" + consts(MAXTOK=3, MAXCORE=3 if quick else 4, MAXTINY=5 if quick else 6, MAXEDITS=1 if quick else 2, TIER=f'"{ctx.tier}"', SEED=ctx.seed) +
            "INVARIANT WindowsOK\nINVARIANT StepsAdvance\nINVARIANT AcceptedIsWF\nINVARIANT SideDoorsWF\nINVARIANT LexWindowOK\nINVARIANT LexLengthOK\nINVARIANT Emit\nCHECK_DEADLOCK FALSE\n")
     cfg_fold = ("SPECIFICATION Spec\n" + consts(TIER=f'"{ctx.tier}"', SEEDS=16, SEED=ctx.seed) +
                 "INVARIANT AcceptedIsWF\nINVARIANT Emit\nCHECK_DEADLOCK FALSE\n")
